@@ -13,7 +13,7 @@ import threading
 import numpy as np
 
 from ..common import execute_cases, qs
-from ..lib_callenv import lay, callenv, bits
+from ..lib_callenv import lay, callenv, bits, invoke, SIG, tweak_zeros
 
 S = 10**6
 S4 = 10**4
@@ -50,28 +50,52 @@ def _param(case):
 
 
 def _callables(case):
-    """name -> function(array) for the runs of this case."""
-    from tensorly.tenalg import proximal as P
-    op = case["op"]
+    """name -> function(array) for the runs of this case.
+
+    Call dimensions (the result must not depend on them): `form` = every argument positional / by keyword (frozen
+    signature table), `entry` = the home module or the re-export in tensorly.solvers.admm, `spell` = the scalar / {0: p} /
+    [p] spellings of a one-mode constraint in the keyword dispatch, `alias` = threshold array and tensor are one object,
+    `prev` = the caller caught an exception of an earlier, invalid call on the same array."""
+    import importlib
+    P = importlib.import_module("tensorly.solvers.admm" if case.get("entry") == "alias" else "tensorly.tenalg.proximal")
+    op, form = case["op"], case.get("form", "pos")
+
+    def guarded(call):
+        if case.get("prev") != "failed":
+            return call
+
+        def run(a):
+            try:        # two constraints for the same mode are refused half-way through the keyword processing
+                P.proximal_operator(a, non_negative=True, l1_reg=0.5)
+            except ValueError:
+                pass
+            return call(a)
+        return run
+
     if op == "l1arr":
         # documented array form of the threshold: one threshold per entry, same shape as the input
         thr = np.array(case["t"], dtype=np.float64).T / case["q"] * 10.0 ** case["sc"]       # n x nc
         if case["ndim"] == 1:
             thr = thr[:, 0]
-        return {"direct": lambda a: P.soft_thresholding(a, lay(thr, case.get("layout", "C")))}
+        if case.get("alias"):
+            return {"direct": guarded(lambda a: invoke(P.soft_thresholding, "soft_thresholding", {"tensor": a, "threshold": a}, form))}
+        return {"direct": guarded(lambda a: invoke(P.soft_thresholding, "soft_thresholding",
+                                                   {"tensor": a, "threshold": lay(thr, case.get("layout", "C"))}, form))}
     par = _param(case)
     fn, kw = DIRECT[op]
     runs = {}
     if fn is not None:
         f = getattr(P, fn)
+        names = [k for k, _ in SIG[fn]]
         if op == "mono":
-            runs["direct"] = lambda a: f(a, decreasing=bool(case["dec"]))
+            runs["direct"] = guarded(lambda a: invoke(f, fn, {names[0]: a, "decreasing": bool(case["dec"])}, form))
         elif op == "unimodal":
-            runs["direct"] = lambda a: f(a)
+            runs["direct"] = guarded(lambda a: invoke(f, fn, {names[0]: a}, form))
         else:
-            runs["direct"] = lambda a: f(a, par)
+            runs["direct"] = guarded(lambda a: invoke(f, fn, {names[0]: a, names[1]: par}, form))
     if not (op == "mono" and case["dec"]):
-        runs["dispatch"] = lambda a: P.proximal_operator(a, **{kw: par})
+        spelled = {"scalar": par, "dict": {0: par}, "list": [par]}[case.get("spell", "scalar")]
+        runs["dispatch"] = guarded(lambda a: invoke(P.proximal_operator, "proximal_operator", {"tensor": a, kw: spelled}, form))
     return runs
 
 
@@ -98,6 +122,7 @@ def execute_vec(case):
         base = base[:, 0].reshape(mshape)                      # whole-tensor operator on a matrix: row-major reshape of the vector
     elif case["ndim"] == 1:
         base = base[:, 0]
+    base = tweak_zeros(base, case.get("vals", "plain"))
     unscale = 1.0 if LAW[op] == "inv" else scale
 
     def proj(out):
@@ -134,6 +159,8 @@ def execute_vec(case):
                           "again_raised": False, "mutated": False}
     return {"id": case["id"], "kind": "vec", "op": op, "p": case["p"], "q": case["q"], "k": case["k"], "dec": case["dec"],
             "sc": sc, "cols": cols, "t": case.get("t", []), "ndim": case["ndim"], "layout": layout, "err": err, "mshape": mshape,
+            "form": case.get("form", "pos"), "entry": case.get("entry", "home"), "spell": case.get("spell", "scalar"),
+            "vals": case.get("vals", "plain"), "prev": case.get("prev", "none"), "alias": bool(case.get("alias", False)),
             "runs": runs}
 
 
@@ -157,13 +184,14 @@ def execute_mat(case):
     run = {"raised": False, "exc": "", "size": 0, "out": [], "again": [], "again_raised": False, "orth": 0, "ip": 0, "mutated": False}
     layout, err = case.get("layout", "C"), case.get("err", "default")
     try:
-        arg = lay(M, layout)
+        arg = lay(tweak_zeros(M, case.get("vals", "plain")), layout)
         before = bits(arg)
+        form = case.get("form", "pos")
         with callenv(err):
             if case["op"] == "svt":
-                out = P.svd_thresholding(arg, case["p"] / case["q"])
+                out = invoke(P.svd_thresholding, "svd_thresholding", {"matrix": arg, "threshold": case["p"] / case["q"]}, form)
             else:
-                out = P.procrustes(arg)
+                out = invoke(P.procrustes, "procrustes", {"matrix": arg}, form)
         run["mutated"] = bool(bits(arg) != before)
         out = np.asarray(out, dtype=np.float64)
         run["size"] = int(out.size)
@@ -184,7 +212,7 @@ def execute_mat(case):
         run.update(raised=True, exc=type(ex).__name__)
     return {"id": case["id"], "kind": "mat", "op": case["op"], "p": case["p"], "q": case["q"], "m": m, "n": n,
             "uf": case["uf"], "vf": case["vf"], "c": case["c"], "M": [[int(x) for x in row] for row in M], "layout": layout, "err": err,
-            "runs": {"direct": run}}
+            "form": case.get("form", "pos"), "vals": case.get("vals", "plain"), "runs": {"direct": run}}
 
 
 def execute(case):
@@ -222,7 +250,17 @@ def build_cases(chk, cfgs, thorough):
     cases = []
 
     def add(kind, op, body):
-        body.update(id="C12/%s/%06d" % (op, len(cases)), kind=kind, op=op)
+        i = len(cases)
+        body.update(id="C12/%s/%06d" % (op, i), kind=kind, op=op)
+        # call dimensions, rotated (not crossed): every event alternates positional / keyword arguments; the events that
+        # carry a non-default environment (see below) also rotate the entry point, the constraint spelling, the way zeros are
+        # written and an earlier failed call
+        body.setdefault("form", ("pos", "kw")[i % 2])
+        if body.get("env"):
+            body.setdefault("entry", ("home", "alias")[(i // 2) % 2])
+            body.setdefault("spell", ("scalar", "dict", "list")[i % 3])
+            body.setdefault("vals", ("plain", "negzero", "subnormal")[(i // 3) % 3])
+            body.setdefault("prev", ("none", "failed")[(i // 5) % 2])
         cases.append(body)
 
     byfam = {}
@@ -268,6 +306,11 @@ def build_cases(chk, cfgs, thorough):
                                          flags={"allneg": False, "hasneg": True}))
     # call environments: the same values in other memory layouts, and under other caller-side error / warning settings
     n_before_env = len(cases)
+    _add = add
+
+    def add(kind, op, body):          # noqa: F811  (events of this section carry env=True)
+        body["env"] = True
+        _add(kind, op, body)
     for (key, n), vs in sorted(byfam.items()):
         op, p, q_, k, dec = key
         columnwise, _ = fam_meta[key]
@@ -303,7 +346,13 @@ def build_cases(chk, cfgs, thorough):
         if t % (3 if thorough else 9) == 0:
             add("mat", c["op"], dict(p=c["p"], q=c["q"], m=c["m"], n=c["n"], uf=[list(u) for u in c["uf"]], vf=[list(u) for u in c["vf"]],
                                      c=list(c["c"]), layout=("F", "strided", "readonly")[(t // 9) % 3], err=("default", "ignore", "raise", "warnerr")[(t // 9) % 4]))
+    # aliasing: the threshold array IS the tensor (t_i = v_i >= 0)
+    for c in arrs:
+        if all(x in (0, 1) for x in c["v"]) and list(c["t"]) == [c["q"] * x for x in c["v"]]:
+            add("vec", "l1arr", dict(p=0, q=c["q"], k=0, dec=False, sc=0, cols=[list(c["v"])], t=[list(c["t"])], ndim=1, alias=True,
+                                     layout="C", err="default", flags={"allneg": False, "hasneg": False}))
     n_env = len(cases) - n_before_env
+    add = _add
     for c in mats:
         add("mat", c["op"], dict(p=c["p"], q=c["q"], m=c["m"], n=c["n"], uf=[list(u) for u in c["uf"]],
                                  vf=[list(u) for u in c["vf"]], c=list(c["c"])))
@@ -348,6 +397,7 @@ def run(chk, opts):
         "exact domain: vectors in {-2..2}^n (n<=4) with rational parameters; scaled variants rely on the spec's homogeneity theorem (checked for c=2,3)",
         "l2 block / normalised sparsity on inputs with irrational norm are judged at 1e-4 (IrrTol) instead of 1e-6",
         "whole-tensor operators (l2 block, hard/normalised sparsity, max-normalisation) are exercised on single columns and on 2 x 2 matrices under the flattened-tensor semantics of their docstrings (the guide's 'column-wise' wording for hard sparsity is not what the function documents)",
+        "call forms: arguments positional / by published keyword from a frozen signature table (alternating on every event); re-export tensorly.solvers.admm.<prox>; scalar / {0: p} / [p] constraint spellings; zeros written as -0.0 or +/-5e-324; an earlier refused call on the same array; threshold array aliased with the tensor; 1 x n and n x 1 matrices for svd_thresholding / procrustes",
         "call environments: C / Fortran / strided / read-only inputs, np.errstate(all=ignore|raise) and warnings-as-errors of the caller; the input must be bit-identical after the call",
         "zero input of normalised sparsity / max-normalisation: any point of the constraint set is accepted",
         "smoothness penalty read as (r/2)*sum of squared finite differences of the zero-extended column (matches the repo's own reference values)",
